@@ -37,14 +37,17 @@ Record Good (fa : bool) (src : str) (a : gast) : Prop := mkGood {
   g_epp : Forall (epp_sel src) (a_epp a);
   g_expect : forall v sp, a_expect a = Some (v, sp) -> num_sel src v sp;
   g_expectrr : forall v sp, a_expectrr a = Some (v, sp) -> num_sel src v sp;
-  g_act : fa = true -> Forall (fun p => action_ok src (p_action p)) (a_prods a) }.
+  g_act : fa = true -> Forall (fun p => action_ok src (p_action p)) (a_prods a);
+  g_impl : forall m, a_implicit_tokens a = Some m -> Forall (fun x => sel src (snd x) (fst x)) m;
+  g_eu : Forall (sym_sel src) (a_expect_unused a) }.
 
 (* projections of updated ASTs *)
 Ltac prj :=
   cbn [a_start a_rules a_prods a_token_directives a_tokens a_spans a_precs a_avoid_insert
-       a_implicit_tokens a_epp a_expect a_expectrr
+       a_implicit_tokens a_epp a_expect a_expectrr a_expect_unused a_parse_param a_parse_generics a_programs
        upd_start upd_rules upd_prods upd_tokdirs upd_tokens upd_spans upd_precs upd_avoid
-       upd_epp upd_expect upd_expectrr].
+       upd_epp upd_expect upd_expectrr upd_implicit upd_expect_unused upd_parse_param upd_parse_generics
+       upd_programs].
 
 (* list equalities modulo re-association (no [subst]) *)
 Ltac lsv := repeat (progress (repeat rewrite <- app_assoc; cbn [app])); try reflexivity.
@@ -93,13 +96,31 @@ Proof.
     + barith.
 Qed.
 
+(* the symbols of an %expect-unused list *)
+Lemma eu_occs_sel : forall src g q ss k off pre rest,
+  src = pre ++ print_eus g q k ss ++ rest -> off = byte_len pre ->
+  Forall (sym_sel src) (eu_occs g q k off ss).
+Proof.
+  intros src g q ss. induction ss as [|s ss IH]; intros k off pre rest Hs Hi; cbn [eu_occs]; constructor.
+  - cbn [print_eus] in Hs.
+    destruct s as [n|n]; cbn [sym_sel eu_q sym_name] in *.
+    + apply (sel_tok src QBare n pre (g (S k) ++ print_eus g q (S k) ss ++ rest)); [|exact Hi].
+      rewrite Hs. lsv.
+    + apply (sel_tok src (q k) n pre (g (S k) ++ print_eus g q (S k) ss ++ rest)); [|exact Hi].
+      rewrite Hs. lsv.
+  - cbn [print_eus] in Hs.
+    apply (IH (S k) _ (pre ++ print_tok (eu_q q k s) (sym_name s) ++ g (S k)) rest).
+    + rewrite Hs. lsv.
+    + barith.
+Qed.
+
 (* ======================================================================== *)
 (*  Elementary updates                                                        *)
 (* ======================================================================== *)
 Lemma good_new : forall fa src, Good fa src ast_new.
 Proof.
   intros fa src. constructor; cbn [ast_new a_start a_rules a_prods a_tokens a_spans a_precs a_avoid_insert
-                                   a_epp a_expect a_expectrr];
+                                   a_epp a_expect a_expectrr a_implicit_tokens a_expect_unused];
     try (intros; discriminate); constructor.
 Qed.
 
@@ -107,12 +128,12 @@ Lemma good_tokens_insert : forall fa src a n sp,
   Good fa src a -> sel src sp n -> Good fa src (tokens_insert a n sp).
 Proof.
   intros fa src a n sp H Hsel. destruct (tokens_insert_cases a n sp) as [[_ E]|[_ E]]; rewrite E; [exact H|].
-  destruct H as [H1 H2 H3 H4 H5 H6 H7 H8 H9 H10]. constructor; prj; try assumption.
+  destruct H as [H1 H2 H3 H4 H5 H6 H7 H8 H9 H10 H11 H12]. constructor; prj; try assumption.
   apply Forall2_app; [assumption|]. constructor; [exact Hsel | constructor].
 Qed.
 
 Lemma good_upd_tokdirs : forall fa src a v, Good fa src a -> Good fa src (upd_tokdirs a v).
-Proof. intros fa src a v H. destruct H as [H1 H2 H3 H4 H5 H6 H7 H8 H9 H10]. constructor; prj; assumption. Qed.
+Proof. intros fa src a v H. destruct H as [H1 H2 H3 H4 H5 H6 H7 H8 H9 H10 H11 H12]. constructor; prj; assumption. Qed.
 
 Lemma good_ins_declared : forall fa src a o,
   Good fa src a -> occ_sel src o -> Good fa src (ins_declared a o).
@@ -127,14 +148,14 @@ Lemma good_ins_prec : forall fa src lvl k a o,
   Good fa src a -> occ_sel src o -> Good fa src (ins_prec lvl k a o).
 Proof.
   intros fa src lvl k a o H Hsel. unfold ins_prec.
-  destruct H as [H1 H2 H3 H4 H5 H6 H7 H8 H9 H10]. constructor; prj; try assumption.
+  destruct H as [H1 H2 H3 H4 H5 H6 H7 H8 H9 H10 H11 H12]. constructor; prj; try assumption.
   apply Forall_app. split; [assumption|]. constructor; [exact Hsel | constructor].
 Qed.
 
 Lemma good_upd_avoid_nil : forall fa src a,
   Good fa src a -> Good fa src (upd_avoid a (Some [])).
 Proof.
-  intros fa src a H. destruct H as [H1 H2 H3 H4 H5 H6 H7 H8 H9 H10]. constructor; prj; try assumption.
+  intros fa src a H. destruct H as [H1 H2 H3 H4 H5 H6 H7 H8 H9 H10 H11 H12]. constructor; prj; try assumption.
   intros m E. injection E as <-. constructor.
 Qed.
 
@@ -142,7 +163,7 @@ Lemma good_upd_avoid_snoc : forall fa src a o,
   Good fa src a -> occ_sel src o ->
   Good fa src (upd_avoid a (Some (match a_avoid_insert a with Some m => m | None => [] end ++ [o]))).
 Proof.
-  intros fa src a o H Hsel. destruct H as [H1 H2 H3 H4 H5 H6 H7 H8 H9 H10]. constructor; prj; try assumption.
+  intros fa src a o H Hsel. destruct H as [H1 H2 H3 H4 H5 H6 H7 H8 H9 H10 H11 H12]. constructor; prj; try assumption.
   intros m E. injection E as <-. apply Forall_app. split.
   - destruct (a_avoid_insert a) as [m0|]; [apply H6; reflexivity | constructor].
   - constructor; [exact Hsel | constructor].
@@ -155,31 +176,72 @@ Proof.
   apply good_upd_avoid_snoc; [|exact Hsel]. apply good_tokens_insert; assumption.
 Qed.
 
+Lemma good_upd_implicit_nil : forall fa src a,
+  Good fa src a -> Good fa src (upd_implicit a (Some [])).
+Proof.
+  intros fa src a H. destruct H as [H1 H2 H3 H4 H5 H6 H7 H8 H9 H10 H11 H12]. constructor; prj; try assumption.
+  intros m E. injection E as <-. constructor.
+Qed.
+
+Lemma good_upd_implicit_snoc : forall fa src a o,
+  Good fa src a -> occ_sel src o ->
+  Good fa src (upd_implicit a (Some (match a_implicit_tokens a with Some m => m | None => [] end ++ [o]))).
+Proof.
+  intros fa src a o H Hsel. destruct H as [H1 H2 H3 H4 H5 H6 H7 H8 H9 H10 H11 H12]. constructor; prj; try assumption.
+  intros m E. injection E as <-. apply Forall_app. split.
+  - destruct (a_implicit_tokens a) as [m0|]; [apply H11; reflexivity | constructor].
+  - constructor; [exact Hsel | constructor].
+Qed.
+
+Lemma good_ins_implicit : forall fa src a o,
+  Good fa src a -> occ_sel src o -> Good fa src (ins_implicit a o).
+Proof.
+  intros fa src a o H Hsel. unfold ins_implicit. cbv zeta.
+  apply good_upd_implicit_snoc; [|exact Hsel]. apply good_tokens_insert; assumption.
+Qed.
+
+Lemma good_ins_eu : forall fa src a s,
+  Good fa src a -> sym_sel src s -> Good fa src (ins_eu a s).
+Proof.
+  intros fa src a s H Hsel. unfold ins_eu.
+  destruct H as [H1 H2 H3 H4 H5 H6 H7 H8 H9 H10 H11 H12]. constructor; prj; try assumption.
+  apply Forall_app. split; [assumption|]. constructor; [exact Hsel | constructor].
+Qed.
+
+Lemma good_upd_parse_param : forall fa src a v, Good fa src a -> Good fa src (upd_parse_param a v).
+Proof. intros fa src a v H. destruct H as [H1 H2 H3 H4 H5 H6 H7 H8 H9 H10 H11 H12]. constructor; prj; assumption. Qed.
+
+Lemma good_upd_parse_generics : forall fa src a v, Good fa src a -> Good fa src (upd_parse_generics a v).
+Proof. intros fa src a v H. destruct H as [H1 H2 H3 H4 H5 H6 H7 H8 H9 H10 H11 H12]. constructor; prj; assumption. Qed.
+
+Lemma good_upd_programs : forall fa src a v, Good fa src a -> Good fa src (upd_programs a v).
+Proof. intros fa src a v H. destruct H as [H1 H2 H3 H4 H5 H6 H7 H8 H9 H10 H11 H12]. constructor; prj; assumption. Qed.
+
 Lemma good_upd_start : forall fa src a n sp,
   Good fa src a -> sel src sp n -> Good fa src (upd_start a (Some (n, sp))).
 Proof.
-  intros fa src a n sp H Hsel. destruct H as [H1 H2 H3 H4 H5 H6 H7 H8 H9 H10]. constructor; prj; try assumption.
+  intros fa src a n sp H Hsel. destruct H as [H1 H2 H3 H4 H5 H6 H7 H8 H9 H10 H11 H12]. constructor; prj; try assumption.
   intros n' sp' E. injection E as <- <-. exact Hsel.
 Qed.
 
 Lemma good_upd_epp_snoc : forall fa src a x,
   Good fa src a -> epp_sel src x -> Good fa src (upd_epp a (a_epp a ++ [x])).
 Proof.
-  intros fa src a x H Hx. destruct H as [H1 H2 H3 H4 H5 H6 H7 H8 H9 H10]. constructor; prj; try assumption.
+  intros fa src a x H Hx. destruct H as [H1 H2 H3 H4 H5 H6 H7 H8 H9 H10 H11 H12]. constructor; prj; try assumption.
   apply Forall_app. split; [assumption|]. constructor; [exact Hx | constructor].
 Qed.
 
 Lemma good_upd_expect : forall fa src a v sp,
   Good fa src a -> num_sel src v sp -> Good fa src (upd_expect a (Some (v, sp))).
 Proof.
-  intros fa src a v sp H Hx. destruct H as [H1 H2 H3 H4 H5 H6 H7 H8 H9 H10]. constructor; prj; try assumption.
+  intros fa src a v sp H Hx. destruct H as [H1 H2 H3 H4 H5 H6 H7 H8 H9 H10 H11 H12]. constructor; prj; try assumption.
   intros v' sp' E. injection E as <- <-. exact Hx.
 Qed.
 
 Lemma good_upd_expectrr : forall fa src a v sp,
   Good fa src a -> num_sel src v sp -> Good fa src (upd_expectrr a (Some (v, sp))).
 Proof.
-  intros fa src a v sp H Hx. destruct H as [H1 H2 H3 H4 H5 H6 H7 H8 H9 H10]. constructor; prj; try assumption.
+  intros fa src a v sp H Hx. destruct H as [H1 H2 H3 H4 H5 H6 H7 H8 H9 H10 H11 H12]. constructor; prj; try assumption.
   intros v' sp' E. injection E as <- <-. exact Hx.
 Qed.
 
@@ -209,7 +271,7 @@ Lemma good_add_rule : forall fa src a n sp at_,
   Good fa src a -> sel src sp n -> Good fa src (add_rule a n sp at_).
 Proof.
   intros fa src a n sp at_ H Hsel. unfold add_rule.
-  destruct H as [H1 H2 H3 H4 H5 H6 H7 H8 H9 H10]. constructor; prj; try assumption.
+  destruct H as [H1 H2 H3 H4 H5 H6 H7 H8 H9 H10 H11 H12]. constructor; prj; try assumption.
   apply rules_insert_forall; [assumption | exact Hsel].
 Qed.
 
@@ -219,7 +281,7 @@ Lemma good_add_prod_t : forall fa src a rn syms prec act sp,
 Proof.
   intros fa src a rn syms prec act sp H Hsy Hact. unfold add_prod_t, add_prod.
   destruct (rules_push_pidx (a_rules a) rn (List.length (a_prods a))) as [rs|] eqn:E; [|exact H].
-  destruct H as [H1 H2 H3 H4 H5 H6 H7 H8 H9 H10]. constructor; prj; try assumption.
+  destruct H as [H1 H2 H3 H4 H5 H6 H7 H8 H9 H10 H11 H12]. constructor; prj; try assumption.
   - exact (push_pidx_forall src _ _ _ _ E H2).
   - apply Forall_app. split; [assumption|]. constructor; [exact Hsy | constructor].
   - intros Hfa. apply Forall_app. split; [exact (H10 Hfa)|]. constructor; [exact (Hact Hfa) | constructor].
@@ -234,6 +296,14 @@ Proof.
   inversion Ho as [|o' l Ho1 Ho2]; subst. apply IH; [exact Ho2|]. apply Hf; assumption.
 Qed.
 
+Lemma fold_good_gen : forall fa src (X : Type) (P : X -> Prop) (f : gast -> X -> gast),
+  (forall a o, Good fa src a -> P o -> Good fa src (f a o)) ->
+  forall occs a, Forall P occs -> Good fa src a -> Good fa src (fold_left f occs a).
+Proof.
+  intros fa src X P f Hf occs. induction occs as [|o occs IH]; intros a Ho H; cbn [fold_left]; [exact H|].
+  inversion Ho as [|o' l Ho1 Ho2]; subst. apply IH; [exact Ho2|]. apply Hf; assumption.
+Qed.
+
 (* ======================================================================== *)
 (*  Declarations                                                              *)
 (* ======================================================================== *)
@@ -242,7 +312,7 @@ Lemma good_decl_eff : forall fa src dl x lvl pre rest off a,
   Good fa src a -> Good fa src (decl_eff dl off lvl x a).
 Proof.
   intros fa src dl x lvl pre rest off a Hs Hi [_ Hwf] H.
-  destruct x as [n|ts|k ts|t v|ts|v|v]; cbn [decl_eff print_decl] in *.
+  destruct x as [n|ts|k ts|t v|ts|v|v|t|nm t|t|ss|ts]; cbn [decl_eff print_decl] in *.
   - (* %start *)
     apply good_upd_start; [exact H|].
     apply (sel_at src (pre ++ kw_start ++ dg dl 0) n (dg dl 1 ++ rest)); [rewrite Hs; lsv | barith | lia].
@@ -275,6 +345,19 @@ Proof.
     destruct Hwf as [Hnum _].
     apply good_upd_expectrr; [exact H|]. exists (d_txt dl). split; [|exact Hnum].
     apply (sel_at src (pre ++ kw_expect_rr ++ dg dl 0) (d_txt dl) (dg dl 1 ++ rest)); [rewrite Hs; lsv | barith | lia].
+  - (* %actiontype *)
+    exact H.
+  - (* %parse-param *)
+    apply good_upd_parse_param. exact H.
+  - (* %parse-generics *)
+    apply good_upd_parse_generics. exact H.
+  - (* %expect-unused *)
+    apply (fold_good_gen fa src symbol (sym_sel src)); [apply good_ins_eu | | exact H].
+    apply (eu_occs_sel src (dg dl) (dq dl) ss 0 _ (pre ++ kw_expect_unused ++ dg dl 0) rest); [rewrite Hs; lsv | barith].
+  - (* %implicit_tokens *)
+    apply fold_good; [apply good_ins_implicit | | ].
+    + apply (occs_sel src (dg dl) (dq dl) ts 0 _ (pre ++ kw_implicit_tokens ++ dg dl 0) rest); [rewrite Hs; lsv | barith].
+    + destruct (a_implicit_tokens a); [exact H | apply good_upd_implicit_nil; exact H].
 Qed.
 
 Lemma good_decls_eff : forall fa src l ds d lvl pre rest off a,
@@ -410,11 +493,11 @@ Lemma good_rule_eff : forall fa src rl at_ r pre rest off a,
 Proof.
   intros fa src rl at_ r pre rest off a Hs Hi H. unfold rule_eff. unfold print_rule in Hs.
   apply (good_prods_eff fa src rl (ar_name r) (ar_prods r) 0
-                        (pre ++ ar_name r ++ rg_name rl ++ c_colon :: rg_colon rl) rest).
+                        (pre ++ ar_name r ++ rg_name rl ++ print_rtype rl r ++ c_colon :: rg_colon rl) rest).
   - rewrite Hs. lsv.
   - unfold rule_body_off. barith.
-  - apply (good_rule_head fa src at_ (ar_name r) pre
-                          (rg_name rl ++ c_colon :: rg_colon rl ++ print_prods rl 0 (ar_prods r) ++ rest));
+  - apply (good_rule_head fa src (rule_at_ at_ r) (ar_name r) pre
+                          (rg_name rl ++ print_rtype rl r ++ c_colon :: rg_colon rl ++ print_prods rl 0 (ar_prods r) ++ rest));
       try assumption.
     rewrite Hs. lsv.
 Qed.
@@ -439,12 +522,15 @@ Qed.
 Lemma ast_of_good : forall fa l ag, wf_decls l 0 (ag_decls ag) -> Good fa (print l ag) (ast_of fa l ag).
 Proof.
   intros fa l ag Hd. unfold ast_of.
-  apply (good_rules_eff fa (print l ag) l (ag_rules ag) 0 None
-                        (l_gap l [0] ++ print_decls l 0 (ag_decls ag) ++ kw_pp ++ l_gap l [2]) []).
-  - unfold print. rewrite app_nil_r. lsv.
+  assert (Hp : forall a, Good fa (print l ag) a -> Good fa (print l ag) (programs_eff ag a)).
+  { intros a Ha. unfold programs_eff. destruct (ag_programs ag); [apply good_upd_programs|]; exact Ha. }
+  apply Hp.
+  apply (good_rules_eff fa (print l ag) l (ag_rules ag) 0 (actiont_of (gat_of l ag))
+                        (l_gap l [0] ++ print_decls l 0 (ag_decls ag) ++ kw_pp ++ l_gap l [2]) (print_programs l ag)).
+  - unfold print. lsv.
   - unfold rules_off, decls_off. barith.
   - apply (good_decls_eff fa (print l ag) l (ag_decls ag) 0 0 (l_gap l [0])
-                          (kw_pp ++ l_gap l [2] ++ print_rules l 0 (ag_rules ag))).
+                          (kw_pp ++ l_gap l [2] ++ print_rules l 0 (ag_rules ag) ++ print_programs l ag)).
     + reflexivity.
     + reflexivity.
     + exact Hd.
@@ -454,6 +540,6 @@ Qed.
 Lemma ast_of_spans_select : ast_of_spans_select_stmt.
 Proof.
   intros fa l ag Hwf A src. destruct Hwf as [_ [Hd _]].
-  destruct (ast_of_good fa l ag Hd) as [H1 H2 H3 H4 H5 H6 H7 H8 H9 H10].
-  exact (conj H1 (conj H2 (conj H3 (conj H4 (conj H5 (conj H6 (conj H7 (conj H8 (conj H9 H10))))))))).
+  destruct (ast_of_good fa l ag Hd) as [H1 H2 H3 H4 H5 H6 H7 H8 H9 H10 H11 H12].
+  exact (conj H1 (conj H2 (conj H3 (conj H4 (conj H5 (conj H6 (conj H11 (conj H12 (conj H7 (conj H8 (conj H9 H10))))))))))).
 Qed.
